@@ -80,6 +80,8 @@ package queue
 import (
 	"sync/atomic"
 	"unsafe"
+
+	"github.com/panjf2000/gnet/v2/internal/vhook"
 )
 
 // lockFreeQueue is a simple, fast, and practical non-blocking and concurrent queue with no lock.
@@ -113,6 +115,7 @@ retry:
 			if cas(&tail.next, next, n) { // enqueue is done.
 				// Try to swing tail to the inserted node.
 				cas(&q.tail, tail, n)
+				vhook.Gate("q.inc", q, 1)
 				atomic.AddInt32(&q.length, 1)
 				return
 			}
@@ -142,8 +145,10 @@ retry:
 			cas(&q.tail, tail, next) // tail is falling behind, try to advance it.
 		} else {
 			// Read value before CAS, otherwise another dequeue might free the next node.
+			vhook.Gate("q.val", next, 0)
 			task := next.value
 			if cas(&q.head, head, next) { // dequeue is done, return value.
+				vhook.Gate("q.dec", q, -1)
 				atomic.AddInt32(&q.length, -1)
 				return task
 			}
@@ -154,18 +159,22 @@ retry:
 
 // IsEmpty indicates whether this queue is empty or not.
 func (q *lockFreeQueue) IsEmpty() bool {
+	vhook.Gate("q.len", q, 0)
 	return atomic.LoadInt32(&q.length) == 0
 }
 
 // Length returns the number of elements in the queue.
 func (q *lockFreeQueue) Length() int32 {
+	vhook.Gate("q.len", q, 0)
 	return atomic.LoadInt32(&q.length)
 }
 
 func load(p *unsafe.Pointer) (n *node) {
+	vhook.Gate("q.load", p, 0)
 	return (*node)(atomic.LoadPointer(p))
 }
 
 func cas(p *unsafe.Pointer, old, new *node) bool { //nolint:revive
+	vhook.Gate("q.cas", p, 0)
 	return atomic.CompareAndSwapPointer(p, unsafe.Pointer(old), unsafe.Pointer(new))
 }
